@@ -1,6 +1,87 @@
 // C12 — limited (relayed) connections are never mistaken for direct ones.
 //
-// Lock-level simulation of REAL basic hosts on simnet (everything instrumented). See world_test.go.
+// Lock-level simulation of REAL basic hosts on simnet (everything instrumented, see props.py):
+// A (under observation), B (the peer; holds a reservation on the relay), R (basic host + real
+// circuit-v2 relay service: default limits, a 15 s limit, or unlimited). A and B carry the real
+// circuit client transport (wired as p2p/protocol/circuitv2/relay/relay_test.go does) behind a
+// wrapper that records the addresses handed to Dial and delegates. world_test.go holds the code.
+//
+// Layer A (4 runs of 5): the initial connections A-B are drawn (limited only, none, direct only,
+// both); 1-4 caller tasks on A call Swarm.NewStream / Swarm.DialPeer / Host.NewStream /
+// Host.Connect / Conn.NewStream with every subset of {WithAllowLimitedConn, WithForceDirectDial,
+// WithNoDial}, own deadline, optional WithDialPeerTimeout and an independent cancellation instant;
+// 1-2 environment tasks meanwhile make B's listener refuse / accept, create direct connections in
+// both directions, close direct / relayed connections on A's or B's side, ClosePeer, flap a direct
+// connection, close the next direct connection from inside A's Connected notification, or make B
+// drop everything and come back through the relay (inbound limited connection on A). The main task
+// takes Connectedness readings at quiescent instants (accepted only if nothing was notified while
+// reading, as C06 does). After all callers left, direct connections arrive once more (outbound,
+// then inbound), everything is closed and the goroutine residue is inspected.
+//
+// Layer B (1 run of 5): A and B on public addresses behind simulated stateful firewalls
+// (filtered: an inbound connection is accepted only from an IP the host dialled within the last
+// 2 s; open; symmetric: never), optional link latency, real hole punching services on both
+// (2/3 of the runs: built by the harness with holepunch.NewService around a host wrapper that
+// records the service's NewStream / SetStreamHandler / Connect calls and delegates; 1/3:
+// HostOpts.EnableHolePunching unchanged), public tracer on both. The same callers run on A, so
+// that a stream open without permission waits for the hole punch.
+//
+// Oracles (classes), all from the statement; weaker readings are listed in props.py level_note:
+//
+//	stream-on-limited-conn-without-permission/<api>   returned stream's Conn().Stat().Limited without allow-limited
+//	force-direct-returned-relayed[/final]             DialPeer(force-direct) returned a limited / relay-address connection
+//	force-direct-connect-without-direct-conn          Host.Connect(force-direct)==nil with no direct connection open during the call
+//	relay-address-dialled-under-force-direct          circuit transport Dial saw a context that demands a direct connection
+//	relay-address-dialled-by-hole-punch               ... a simultaneous-connect (hole punching) context
+//	relayed-conn-not-marked-limited                   connection through a limiting relay with Stat().Limited == false
+//	limited-flag-on-direct-address                    Limited connection whose remote address is no relay address
+//	late-return/<api>                                 call returned later than its own deadline / cancellation + 1 s
+//	wait-exceeds-dial-peer-timeout/Swarm.NewStream    pure wait (no-dial) longer than the dial-peer timeout + 1 s with no direct connection admitted
+//	gave-up-without-waiting                           ErrLimitedConn although no direct connection came (and went) during the call
+//	direct-conn-ignored                               stream open failed although a non-limited connection was open all the time
+//	waiter-not-released                               direct connection was announced while waiting and stayed, call still timed out
+//	unexpected-error                                  pure wait failed with something else than ErrLimitedConn / ErrNoConn / context error
+//	connectedness/reported-X-truth-Y                  Connectedness(B) at a quiescent instant vs. the notified open connections
+//	connectedness-event/last-X-truth-Y                last EvtPeerConnectednessChanged vs. the same truth
+//	waiter-entry-leaked                               Swarm.directConnNotifs (reflection, quiescent) holds more entries than waiting calls
+//	panic, deadlock, residue                          e.g. a direct connection arriving after all waiters left
+//	holepunch-dials-relay-address                     StartHolePunch addresses / the service's Connect list a /p2p-circuit address
+//	holepunch-connect-without-force-direct            the service's Connect lacks force-direct (wrapped wiring)
+//	holepunch-coordinated-over-direct-conn            StartHolePunch after a /libp2p/dcutr stream on a non-relayed connection (wrapped wiring)
+//	holepunch-coordinated-without-relayed-conn        StartHolePunch on a node that never had a relayed connection to the peer
+//	holepunch-success-without-direct-conn             EndHolePunch(success) with no direct connection open during the attempt
+//	direct-dial-success-without-direct-conn           DirectDial(success) likewise
+//
+// Opening the dcutr stream on a direct connection is legal for the initiator (it happens on the
+// unchanged tree when a direct connection exists by the time of a retry: probe
+// dcutr-stream-on-direct-conn); what must not happen is that the exchange completes on it.
+//
+// Sensitivity (one mutation at a time on a private copy of the instrumented overlay, 3-4 workers,
+// each reported within 60 s; first class that caught it):
+//
+//	waitForDirectConn returns the limited connection at once          gave-up-without-waiting
+//	bestAcceptableConnToPeer ignores force-direct                     force-direct-returned-relayed (+ /final, direct-dial-success-without-direct-conn)
+//	connectednessUnlocked: Connected for limited only                 connectedness/reported-Connected-truth-Limited (+ connectedness-event/...)
+//	addrsForDial keeps relay addresses under force-direct             relay-address-dialled-under-force-direct
+//	Conn.NewStream re-check dropped                                   stream-on-limited-conn-without-permission/Conn.NewStream
+//	Swarm.NewStream: Limited check dropped                            gave-up-without-waiting
+//	addConn does not close the waiters' channels                      waiter-not-released
+//	cancelled waiter's entry not removed                              waiter-entry-leaked
+//	addConn does not delete the map entry (double close)              panic
+//	waitForDirectConn without the dial-peer timeout                   wait-exceeds-dial-peer-timeout/Swarm.NewStream
+//	isBetterConn prefers the limited connection                       direct-conn-ignored
+//	addConn wakes waiters for limited connections too                 gave-up-without-waiting
+//	circuit client: inbound / outbound Limited flag not set           relayed-conn-not-marked-limited (two mutations)
+//	holepunch removeRelayAddrs keeps everything                       holepunch-dials-relay-address
+//	holepunch receiver accepts a stream on a direct connection        holepunch-coordinated-over-direct-conn
+//	holePunchConnect swallows the error                               holepunch-success-without-direct-conn
+//	holePunchConnect without force-direct                             holepunch-success-without-direct-conn (+ holepunch-connect-without-force-direct)
+//	hole puncher's first direct dial without force-direct             direct-dial-success-without-direct-conn
+//
+// Equivalent for this property (not caught, by construction): waitForDirectConn returning the limited
+// connection AFTER being woken (Conn.NewStream's re-check turns it into the same ErrLimitedConn);
+// Host.Connect treating Limited as connected without allow-limited (DialPeer returns the limited
+// connection anyway, Host.NewStream then waits in Swarm.NewStream).
 package c12
 
 import (
@@ -17,7 +98,7 @@ func run(t *testing.T, tape *simrt.Tape) *common.Outcome {
 	g := simrt.Gen{S: tape.G}
 	// stratum first (0 = layer A, the main stratum)
 	layerB := g.Weighted(4, 1) == 1
-	if l := os.Getenv("C12_LAYER"); l != "" { // development aid only: pin the stratum
+	if l := os.Getenv("C12_LAYER"); l != "" { // development aid only (never set by ./check): pin the stratum
 		layerB = l == "B"
 	}
 	return runWorld(t, tape, g, layerB)
